@@ -122,8 +122,10 @@ def c01_oracle(case, impl):
             if o + sov > total:
                 return "%s: view leaves the declared region" % name
             for (eo, el, kind) in extents_in(body):
-                if eo < o or eo + el > o + r8(size):
-                    return "%s: %s extent [%d,%d) outside its tag [%d,%d)" % (name, kind, eo, eo + el, o, o + r8(size))
+                # slices / strings / palettes must lie inside the tag's DECLARED size; descriptor references inside its extent
+                lim = o + (r8(size) if kind == "efidesc" else size)
+                if eo < o or eo + el > lim:
+                    return "%s: %s extent [%d,%d) outside its tag [%d,%d)" % (name, kind, eo, eo + el, o, lim)
     return None
 
 
